@@ -316,8 +316,13 @@ func vfC15(c *hx.Ctx) {
 // vfC15Backlog: more new peers than the accept backlog holds (white-box backlog of 1 or 2), late acceptor, then everything
 // is closed: sessions the listener created must not outlive it, whether they were accepted, queued or turned away.
 func vfC15Backlog(c *hx.Ctx) {
-	for _, backlog := range []int{1, 2} {
-		backlog := backlog
+	for _, bl := range []int{1, 2, -1, -2} {
+		// negative: the listener is closed by a thread that may be released at ANY scheduling point while the new peers'
+		// first packets are being processed (also between a session's registration and its hand-over to the backlog)
+		backlog, lurking := bl, false
+		if bl < 0 {
+			backlog, lurking = -bl, true
+		}
 		run := func(e *explore.Exec) explore.Verdict {
 			var fail, sig string
 			out := hx.RunVrt(e, vrt.Config{PreemptCost: 1, SwitchCost: 1, SelectCost: 1, TimerEarlyCost: -1, Horizon: 30 * time.Second, MaxSteps: 3000000}, func() {
@@ -346,6 +351,15 @@ func vfC15Backlog(c *hx.Ctx) {
 						clients, socks = append(clients, s), append(socks, sk)
 					}
 				})
+				var lc vrt.WaitGroup
+				if lurking {
+					lc.Add(1)
+					vrt.Go("listener-closer", func() {
+						defer lc.Done()
+						vrt.Lurk(40 * time.Millisecond)
+						lis.Close()
+					})
+				}
 				for i, s := range clients {
 					s.Write([]byte(fmt.Sprintf("hello from client %d", i)))
 				}
@@ -364,6 +378,7 @@ func vfC15Backlog(c *hx.Ctx) {
 				for _, s := range accepted {
 					s.Close()
 				}
+				lc.Wait()
 				lis.Close()
 				lsock.Close()
 				for _, sk := range socks {
@@ -420,7 +435,11 @@ func vfC15Backlog(c *hx.Ctx) {
 			return v
 		}
 		c.UnitBudget = 15 * time.Second
-		c.Explore(fmt.Sprintf("backlog-overflow/backlog=%d", backlog), map[string]any{"backlog": backlog, "new_peers": 4, "accepted_before_shutdown": "0..3", "fates": "first 3 datagrams deliver/drop"}, hx.Pick(c, 0, 1), run)
+		name, bound := fmt.Sprintf("backlog-overflow/backlog=%d", backlog), hx.Pick(c, 0, 1)
+		if lurking {
+			name, bound = fmt.Sprintf("backlog-overflow/backlog=%d/listener-closed-at-any-point", backlog), hx.Pick(c, 1, 2)
+		}
+		c.Explore(name, map[string]any{"backlog": backlog, "new_peers": 4, "accepted_before_shutdown": "0..3", "fates": "first 3 datagrams deliver/drop", "listener_closer_lurks": lurking}, bound, run)
 	}
 }
 
